@@ -24,6 +24,9 @@ DECIDES = ('G3: every generator that redirects the error/return/break/continue l
            'C22-STATE: in ErrFetch/ErrRestore, ExceptionSave/Reset/Swap, GetException, ReraiseException (every #if variant) type/value/traceback never change slot in a store or C-API call, '
            'each helper reads/writes/clears exactly the thread-state store (raised vs handled exception) of its contract, readers of the handled exception use the topmost non-empty '
            'exc_info item and writers the current one, and every out-parameter is written on every path.')
+DECIDES += (' EXCVARS (rules/excown.py): a code generator that does not install code.funcstate.exc_vars itself (bare raise, except* helpers) never emits code that zeroes or clears '
+            'the exception variables of the enclosing except / finally clause - the handler body can run on after a re-raise that a nested try catches, and a second bare raise or the '
+            'clause\'s break / continue exit then reads them (who-may-write rule on the generators\' syntax tree).')
 NOT_DECIDED = ('implicit __context__ chaining (done by PyErr_SetObject / the exc_info save-restore helpers of Exceptions.c), reference counting of the cause, '
                'the run-time order of blocks; in which emitted segment (between placed labels) the saved exc_info must be restored — e.g. dropping the restore at except_end_label of '
                'TryExceptStatNode is not seen, the emitted control flow is not modelled; the loop condition of __Pyx_PyErr_GetTopmostException (copied from CPython); the except* runtime '
@@ -61,4 +64,5 @@ MUTATIONS = [
 
 def run(ctx):
     from ..rules import exc, sC22, pC22
-    return gen.label_rules(ctx) + [gen2.rule_G2(ctx), gen2.rule_G1(ctx)] + exc.rules(ctx) + [sC22.rule_cause(ctx), sC22.rule_cause_shortcut(ctx)] + pC22.rules(ctx)
+    from ..rules import excown
+    return gen.label_rules(ctx) + [gen2.rule_G2(ctx), gen2.rule_G1(ctx)] + exc.rules(ctx) + [sC22.rule_cause(ctx), sC22.rule_cause_shortcut(ctx)] + pC22.rules(ctx) + [excown.rule_excvars(ctx)]
